@@ -11,7 +11,7 @@ from sa.report import Ctx
 
 from .common import generic_sweeps
 
-from .sat_common import SatRoles, _enclosing_block, check_add_sites, check_binary_add, check_binary_clear, check_assumption_assertion, check_analysis, check_assign, check_backtrack, check_bcp, check_input_copy, check_main_loop, check_heap_flags, check_variable_ranges, check_variable_universe
+from .sat_common import SatRoles, _enclosing_block, check_add_sites, check_binary_add, check_binary_clear, check_assumption_assertion, check_analysis, check_assign, check_backtrack, check_bcp, check_input_copy, check_main_loop, check_heap_flags, check_trail_ownership, check_variable_ranges, check_variable_universe
 
 EXPLANATION = (
     "Decides structural necessary conditions of 'every returned assignment satisfies every clause / agrees with "
@@ -40,6 +40,7 @@ def run(ctx: Ctx):
     ctx.step(check_assumption_assertion, roles, "C01-O6")
     ctx.step(check_heap_flags, "C01-O7")
     ctx.step(check_variable_ranges, "C01-O7")
+    ctx.step(check_trail_ownership, "C01-O7")
     ctx.step(check_variable_universe, "C01-O8")
     ctx.step(check_assign, "C01-O9")
     ctx.step(check_bcp, "C01-O10")
@@ -385,7 +386,13 @@ def _v_heap_without_last_variable(tree):
     M.replace_expr(g, lambda e: M.src_is(e, "[(-activity[v], v) for v in range(1, n_vars + 1)]"), M.expr("[(-activity[v], v) for v in range(1, n_vars)]"))
 
 
+def _v_pointer_skips_the_prologue(tree):
+    g = M.find_func(tree, "solve_sat")
+    M.insert(g, "prop_head = 0", "for lit in assumptions:\n    if vals[lit_var(lit)] == UNDEF:\n        vals[lit_var(lit)] = 1 if lit > 0 else 0\n        trail.append(lit_var(lit))\nprop_head = len(trail)", after=True)
+
+
 VARIANTS = [
+    M.Variant("assumptions are put on the trail by hand and the propagation pointer is set past them (seed C01-AB)", "solvor/sat.py", _v_pointer_skips_the_prologue, "C01-O7"),
     M.Variant("the decision heap starts without the highest-numbered variable (seed C01-Y)", "solvor/sat.py", _v_heap_without_last_variable, "C01-O7"),
     M.Variant("clear_learned filters the entries by their literal instead of their clause index (seed C01-U)", SAT, _v_clear_learned_by_literal, "C01-O11"),
     M.Variant("BinaryImplications.add drops every pair over one variable, [x, x] included (seed C01-O)", SAT, _v_binary_add_skips_same_variable, "C01-O3"),
